@@ -11,6 +11,7 @@
 package main
 
 import (
+	"reflect"
 	"bufio"
 	"bytes"
 	"encoding/base64"
@@ -27,6 +28,7 @@ import (
 	"time"
 	"unicode/utf8"
 
+	"github.com/mk6i/mkdb/engine"
 	"github.com/mk6i/mkdb/sql"
 )
 
@@ -53,6 +55,11 @@ func parseSQL(q string, r *feResult) {
 	}
 	p := sql.Parser{TokenList: tl}
 	r.stmt, r.err = p.Parse()
+	// ... and what the session itself makes of the text (engine.parseSQL): that is what gets executed. Where the two
+	// disagree the session's answer is the one that is judged.
+	if st, err := engine.VerifParseSQL(q); (err == nil) != (r.err == nil) || (err == nil && !reflect.DeepEqual(st, r.stmt)) {
+		r.stmt, r.err = st, err
+	}
 }
 
 const sqlPkg = "github.com/mk6i/mkdb/sql."
